@@ -38,6 +38,7 @@ type World struct {
 	srcCache     map[string][]string
 	Notes        map[string]bool // assumptions / abstractions encountered (for evidence)
 	targets      []*ssa.Function
+	constGlobals map[*ssa.Global]ssa.Value // package-level vars only assigned once, in init, a function value or constant
 }
 
 type fieldInfo struct {
@@ -390,4 +391,50 @@ func (w *World) SrcLine(pos token.Pos) (string, string) {
 		txt = strings.TrimSpace(lines[p.Line-1])
 	}
 	return fmt.Sprintf("%s:%d", strings.TrimPrefix(p.Filename, "/repo/"), p.Line), txt
+}
+
+// ConstGlobal returns the initial (and only) value of a package-level variable that is
+// assigned exactly once in the whole program, in its package initialiser, with a function or
+// constant; nil otherwise.
+func (w *World) ConstGlobal(g *ssa.Global) ssa.Value {
+	if w.constGlobals == nil {
+		w.constGlobals = map[*ssa.Global]ssa.Value{}
+		stores := map[*ssa.Global]int{}
+		vals := map[*ssa.Global]ssa.Value{}
+		for fn := range ssautil.AllFunctions(w.Prog) {
+			for _, b := range fn.Blocks {
+				for _, in := range b.Instrs {
+					st, ok := in.(*ssa.Store)
+					if !ok {
+						continue
+					}
+					gg, ok := st.Addr.(*ssa.Global)
+					if !ok {
+						continue
+					}
+					stores[gg]++
+					if fn.Name() == "init" && fn.Pkg == gg.Pkg {
+						v := st.Val
+						if ct, ok := v.(*ssa.ChangeType); ok {
+							v = ct.X
+						}
+						switch x := v.(type) {
+						case *ssa.Function, *ssa.Const:
+							vals[gg] = x
+						case *ssa.MakeClosure:
+							if len(x.Bindings) == 0 {
+								vals[gg] = x.Fn
+							}
+						}
+					}
+				}
+			}
+		}
+		for g, n := range stores {
+			if n == 1 && vals[g] != nil {
+				w.constGlobals[g] = vals[g]
+			}
+		}
+	}
+	return w.constGlobals[g]
 }
